@@ -213,4 +213,30 @@ PROPS = {
         test_clauses=["real thread interleavings on the real binary (bitwise)", "no hidden shared mutable state (source scan recorded; Send+Sync compile-time assertion)"],
         assumptions=["Rust's type system for data-race freedom of safe code", "OS scheduler behaviour is sampled, not enumerated"],
     ),
+    "C04": dict(
+        rule="the bundled voice (120 labels quick / all 1456 + 4000 recombined thorough) and generated voices (2/3 streams, stage 0 / 1..3, 1..7 states, vector "
+             "lengths, five window sets, tree shapes single-leaf / left comb / right comb / random with 2..12 leaves, quoted and unquoted leaf names, questions "
+             "sampled from the bundled voice's 781 incl. the regex-fallback ones): one case per (voice, label) comparing, for the duration model, every state of "
+             "every stream model and every GV model, the tree index, the PDF index and every mean / variance / voicing weight bit for bit with the Lean reader's "
+             "walk of the file's own trees; one metadata case per voice (global + per-stream metadata, options, windows, engine defaults). "
+             "class = (deepest walk in question nodes, first leaves reached); non-trivial = a walk through >= 2 question nodes",
+        theorem_clauses=["glob = Matches ('*' any string, '?' any one character)", "question holds iff some pattern matches", "single-leaf tree selects its PDF",
+                         "index form (convert_tree + search_node) = walk of the file's tree by node id; yes -> second child, no -> first",
+                         "from_linear layout: means | variances | voicing weight", "engine defaults = header values"],
+        test_clauses=["the byte-level grammar of the reader vs the loader (same files parsed by both)", "jlabel-question's matcher agrees with wildcard matching on the label text",
+                      "f32 -> f64 widening exact (bitwise comparison)"],
+        assumptions=["labels are well-formed Open JTalk labels in canonical text form"],
+    ),
+    "C18": dict(
+        rule="single and (25 %) double faults on generated voices and (1 in 40) the bundled voice: truncation at section boundaries and random offsets; each header "
+             "number -> {0, 1, v+-1, 4e9, 26 digits, negative, text}; inverted ranges; header line deleted / duplicated; question definition renamed; node "
+             "reference changed; lone child replaced by a node id; empty STREAM_TYPE; header byte flip; non-UTF-8 header byte; random data byte. Each file is "
+             "loaded by Engine::load under catch_unwind with the harness under a 6 GiB address-space limit and a wall-clock limit (BEGIN markers name the case on "
+             "abort/hang), and parsed by the Lean reader. class = (fault kinds, loader outcome, drift flag); non-trivial = an actual fault was applied",
+        theorem_clauses=["for every byte sequence the guarded reader returns a voice or an error (no panic outcome)", "the reader is total (structural/fuelled recursion)",
+                         "pinned-commit panic sites witnessed on the unguarded model (inverted range, truncated file, unknown question, lone node child, overlong number)"],
+        test_clauses=["the real loader never panics / aborts / exceeds the time limit on any enumerated fault", "when both accept, the loaded metadata equals the file's",
+                      "ok-vs-err disagreements between reader and loader are counted as drift (both satisfy C18)"],
+        assumptions=["hang and unbounded allocation of the real binary are runtime observations under rlimit/timeout", "the header model is the line grammar of Appendix E, not serde's machinery"],
+    ),
 }
